@@ -795,6 +795,10 @@ pub fn int_value(bits: u32, signed: bool, radix: u32) -> BoxedStrategy<u128> {
     });
     let chunk = move || prop_oneof![Just(0u128), Just(1u128), Just(rs - 1), any::<u64>().prop_map(move |x| (x as u128) % rs)];
     let products = (chunk(), chunk(), chunk()).prop_map(move |(hi, mid, lo)| hi.wrapping_mul(rs).wrapping_mul(rs).wrapping_add(mid.wrapping_mul(rs)).wrapping_add(lo));
+    // binary boundaries in every radix (word splits, fast-path bounds of the 128-bit division): 2^k + d, and a
+    // quotient of exactly 2^64 (+-1) in front of one chunk of digits
+    let bin_edges = (0u32..128, -40i32..=40).prop_map(|(k, d)| (1u128 << k).wrapping_add(d as i128 as u128));
+    let word_quotient = (prop_oneof![Just((1u128 << 64) - 1), Just(1u128 << 64), Just((1u128 << 64) + 1)], chunk()).prop_map(move |(q, lo)| q.wrapping_mul(rs).wrapping_add(lo));
     let edges = prop_oneof![
         Just(int_min(bits, signed)),
         Just(int_min(bits, signed).wrapping_add(1)),
@@ -804,7 +808,7 @@ pub fn int_value(bits: u32, signed: bool, radix: u32) -> BoxedStrategy<u128> {
         Just(int_max(bits, signed)),
         Just(int_max(bits, signed).wrapping_sub(1)),
     ];
-    (prop_oneof![3 => uniform, 4 => log_uniform, 3 => pow_edges, 2 => products, 1 => edges], any::<bool>())
+    (prop_oneof![3 => uniform, 4 => log_uniform, 3 => pow_edges, 2 => products, 2 => bin_edges, 1 => word_quotient, 1 => edges], any::<bool>())
         .prop_map(move |(v, neg)| {
             let v = if signed && neg { v.wrapping_neg() } else { v };
             wrap_int(v, bits, signed)
